@@ -145,8 +145,7 @@ Definition ep_mono (e e' : endpoint) : Prop :=
   prefix (ep_written e) (ep_written e') /\ prefix (ep_read e) (ep_read e') /\
   prefix (ep_sent e) (ep_sent e') /\
   (ep_closed e = true -> ep_closed e' = true) /\
-  (ep_finished e = true -> ep_finished e' = true) /\
-  (ep_closed e = true -> ep_written e' = ep_written e \/ True).
+  (ep_finished e = true -> ep_finished e' = true).
 
 Lemma ep_mono_refl e : ep_mono e e.
 Proof. unfold ep_mono. repeat split; auto using prefix_refl. Qed.
@@ -168,7 +167,6 @@ Proof.
   split; [destruct ev, out; auto using prefix_refl, prefix_app|].
   split; [apply prefix_app|].
   split; [destruct ev; auto; intros ->; reflexivity|].
-  split; [|auto].
   destruct ev; auto. destruct out; auto. destruct e0 as [|[|[| |]|]|]; auto.
 Qed.
 
@@ -244,7 +242,7 @@ Definition net_mono (st st' : net) : Prop := forall x, ep_mono (net_get st x) (n
 
 Lemma ep_mono_trans a b c : ep_mono a b -> ep_mono b c -> ep_mono a c.
 Proof.
-  intros (A1 & A2 & A3 & A4 & A5 & _) (B1 & B2 & B3 & B4 & B5 & _). unfold ep_mono.
+  intros (A1 & A2 & A3 & A4 & A5) (B1 & B2 & B3 & B4 & B5). unfold ep_mono.
   repeat split; eauto using prefix_trans.
 Qed.
 
